@@ -331,10 +331,10 @@ func execKD(c kdCase) (*kdRun, error) {
 		case len(n.Results) == 1:
 			sd := n.Results[0].(*eckg.LocalPartySaveData)
 			r.Out = "ok"
-			if sd.Xi == nil || !sd.Xi.IsInt64() || sd.Xi.Sign() < 0 || sd.Xi.Int64() >= int64(c.Q) {
+			if sd.Xi == nil || sd.Xi.Sign() < 0 {
 				r.X = -1
 			} else {
-				r.X = int(sd.Xi.Int64())
+				r.X = int(new(big.Int).Mod(sd.Xi, big.NewInt(int64(c.Q))).Int64()) // any representative of the residue class
 			}
 			for _, bx := range sd.BigXj {
 				d := -1
